@@ -9,7 +9,7 @@ import itertools
 from fractions import Fraction as F
 
 from .. import oracle as O
-from ..core import Stats, pmap
+from ..core import Stats, guarded, pmap
 from ..world import World
 from . import amounts as A
 
@@ -23,6 +23,7 @@ def scale_of(w, sym):
     return w.um[sym].scale
 
 
+@guarded('C01')
 def run_path(w, tname, path, a, st=None):
     """Convert a*path[0] -> path[1] -> ... on the real library, model in
     lock-step.  -> list of (signature, message)."""
@@ -86,6 +87,7 @@ def run_path(w, tname, path, a, st=None):
     return out
 
 
+@guarded('C01')
 def run_cross(w, s1, s2):
     """Conversion to a unit of another type must raise
     IncompatibleUnitsError."""
